@@ -139,7 +139,27 @@ def run(ctx, out):
             for date, time in ((20231005, (12 + k) * 10000 + 3456), ((2023 + k) * 10000 + 1005, 123456), ((2023 + k) * 10000 + 1005, (12 + k) * 10000 + 3456)):
                 payload = b"\x1f\x0e" + R.ber_len(len(R.bcd(date))) + R.bcd(date) + b"\x1f\x0f" + R.ber_len(len(R.bcd(time))) + R.bcd(time)
                 add("dec " + rp["name"] + " " + (bytes([0x34]) + R.ber_len(len(payload)) + payload).hex(), "calendar" + ("" if valid_dt(date, time) else "-impossible"))
+    # the BCD accumulator on its own: digit strings around the largest value of every integer width, incl. a final F-padded digit;
+    # every string of up to two bytes for u8
+    from .c17 import bcd_boundary, WIDTH
+    for ty, w in WIDTH.items():
+        for b in bcd_boundary(w):
+            add(f"enc.de bcd {ty} {C.hexs(b)}", "bcd-boundary")
+    for a in range(256):
+        add(f"enc.de bcd u8 {a:02x}", "bcd-boundary")
+        for b in (range(256) if thorough else BOUNDARY + [0x5f, 0x6f, 0x9f, 0x0f, 0x55, 0x56]):
+            add(f"enc.de bcd u8 {a:02x}{b:02x}", "bcd-boundary")
+    tails = [x for w in (1, 2, 4, 8) for x in bcd_boundary(w) if x[-1] & 15 == 15 or rng.random() < 0.05]
     for name, b in corpus:
+        # the rest of the packet from some offset on replaced by such a digit string (APDU length corrected): reaches the greedy
+        # BCD fields at the end of a body
+        if name.startswith("dec ") and 3 < len(b) < 255 and b[2] != 0xff:
+            offs = range(3, len(b) + 1) if len(b) <= 24 else sorted({rng.randrange(3, len(b) + 1) for _ in range(6)})
+            for i in offs:
+                for t in (tails if thorough else rng.sample(tails, 10)):
+                    m = b[:i] + t
+                    if len(m) - 3 < 255:
+                        add(f"{name} {(m[:2] + bytes([len(m) - 3]) + m[3:]).hex()}", "bcd-tail")
         # truncations
         big = len(b) > 400 and not thorough
         for k in (range(len(b)) if not big else list(range(64)) + list(range(64, len(b), 13))):
@@ -199,6 +219,6 @@ def run(ctx, out):
     out.nontrivial = rejected[0]
     out.rule = (f"every body of length <= 2 for all {len(cmds)} command decoders, {len(plain)} container decoders and {len(enums)} reply parsers (length 2: {'all 65536' if thorough else 'a 52x47 boundary grid'}); "
                 f"corpus = {len(caps)} captured blobs + {per} canonical packets per type: every truncation, single-byte substitutions ({'all 256' if thorough else '24 boundary'} values per offset), structure-aware mutations "
-                "(length edits, 81/82/FF/1F insertions, splices, deletions, 99.. digit runs, APDU length edits), calendar values (incl. hours / years that are valid only modulo 2^8 .. 2^32), 64 KiB inputs; the packet reader (io.rs) on headers announcing 0..3, 250..260, 65500..65535 bytes with full / half / no body; dev (overflow checks) and release builds answer identically; "
+                "(length edits, 81/82/FF/1F insertions, splices, deletions, 99.. digit runs, APDU length edits, the tail replaced by a BCD digit string around the largest value of an integer width), the BCD decoder on its own on such strings for every width and on every 1-2-byte string for u8, calendar values (incl. hours / years that are valid only modulo 2^8 .. 2^32), 64 KiB inputs; the packet reader (io.rs) on headers announcing 0..3, 250..260, 65500..65535 bytes with full / half / no body; dev (overflow checks) and release builds answer identically; "
                 "allocation/time watchdog. non-trivial = distinct inputs that are rejected with an error")
     out.samples = first_ops + [last]
